@@ -22,7 +22,7 @@ ASSUMPTIONS = C03.ASSUMPTIONS + [
     "Featurizer reads only feature / fixed-effect columns, postal_code, reporting, unit_category (checked by the bounded C16 stand-in, not proved)",
     "scope: versioned_data_handler is None and correct_from_presidential is False (defaults); the extrapolation path merges across units and is NOT verified; bootstrap estimator: see the bounded companion",
 ]
-BOUNDED = [{"name": "perturbation_pairs", "script": "c10_pairs.py", "timeout": 1500}]
+BOUNDED = [{"name": "perturbation_pairs", "script": "c10_pairs.py", "timeout": 1500}, {"name": "gaussian_floor_terms_stay_in_their_own_group", "script": "c15_gaussian.py", "timeout": 2400}]
 
 
 def outlier_function_contract(registry):
